@@ -39,9 +39,7 @@ def Regs.set (r : Regs) : Reg → List Nat → Regs
   | .a, v => { r with a := v }
   | .b, v => { r with b := v }
 
-inductive BinOp where
-  | add | sub | mul | div | mod | band | bor | bxor
-  deriving Repr, BEq, DecidableEq
+-- `BinOp` (add sub mul div mod band bor bxor) is the operator vocabulary of the generated file Gen/C10.lean
 
 /-- one statement of a program -/
 inductive POp where
